@@ -648,7 +648,7 @@ func c12rRemoveLoop(mf *ast.File) (string, error) {
 	if err != nil {
 		return "", err
 	}
-	s := "\n/-- `RemoveClusterHosts`: `sort.Sort(" + slice + ")` precedes the loop over the addresses. -/\n"
+	s := "\nset_option linter.unusedVariables false\n/-- `RemoveClusterHosts`: `sort.Sort(" + slice + ")` precedes the loop over the addresses. -/\n"
 	s += "def removeHosts_sorts : Bool := " + boolLit(sorts) + "\n"
 	s += "/-- the predicate handed to `sort.Search` (`n` = current length, `at_ k` = address of element `k`, `addr` = the address looked up). -/\n"
 	s += "def removeSearchPred (n : Nat) (at_ : Nat → String) (addr : String) (k : Nat) : Bool :=\n  " + pred + "\n"
